@@ -268,3 +268,100 @@ def record_chunk(files, extra):
                            "lines": sorted(set(lines))})
             traces.append({"file": path, "feature": feature, "events": ev})
     return traces
+
+
+# ------------------------------------------------------------------ sessions: several queries on ONE parsed root
+def session_program(prog):
+    body = []
+    k = 0
+    for f in sorted(prog):
+        for _ in range(prog[f]):
+            kind, text = occurrence(f, k)
+            body.append("r%d = %s" % (k, text) if kind == "expr" else text)
+            k += 1
+    return "a = input()\nb = input()\nxs = input()\n" + "\n".join(body) + "\n"
+
+
+def pin_count(feature, R):
+    """The count pedal's ensure_/prevent_ pair implies for the feature on the current report (None if inconsistent)."""
+    lo = None
+    for n in range(0, 6):
+        e_fires, _ = pedal_query(feature, "ensure", n + 1, R)      # fires iff count < n+1
+        p_fires, _ = pedal_query(feature, "prevent", n, R)         # fires iff count > n
+        if e_fires is False and p_fires is False:
+            return None                                            # count >= n+1 and count <= n
+        if e_fires and not p_fires:                                # count <= n, first such n
+            lo = n
+            break
+    return lo
+
+
+def session_replay_chunk(cases, extra):
+    """cases: exported [prog, hist] of specs/StaticSession.tla; every step is asked on the same report."""
+    from engine.core import setup_repo_path
+    setup_repo_path()
+    from pedal.core.report import MAIN_REPORT as R
+    from pedal.core.commands import clear_report, contextualize_report
+    out = []
+    for idx, rec in cases:
+        src = session_program(rec["prog"])
+        tree = ast.parse(src)
+        clear_report()
+        contextualize_report(src)
+        for pos, step in enumerate(rec["hist"]):
+            f = step["f"]
+            truth = len(oracle(tree, f))
+            if truth != rec["prog"][f] or step["ans"] != truth:
+                out.append({"case": rec, "source": src, "kind": "environment", "detail": "oracle %d, program model %d, spec answer %d for %s" % (truth, rec["prog"][f], step["ans"], f)})
+                break
+            try:
+                found = pedal_find(f, R)
+                pinned = pin_count(f, R)
+            except Exception as e:
+                out.append({"case": rec, "source": src, "kind": "raised", "step": pos, "f": f, "detail": "%s: %s" % (type(e).__name__, e)})
+                break
+            if (found is not None and found != truth) or pinned != truth:
+                out.append({"case": rec, "source": src, "kind": "session", "step": pos, "f": f, "found": found, "pinned": pinned,
+                            "expected": truth, "earlier": [s["f"] for s in rec["hist"][:pos]]})
+                break
+    return out
+
+
+def session_record_chunk(files, extra):
+    """Corpus sessions: one report per file, every feature queried on it in a seed-dependent order (code -> spec trace)."""
+    import random
+    from engine.core import setup_repo_path
+    setup_repo_path()
+    from pedal.core.report import MAIN_REPORT as R
+    from pedal.core.commands import clear_report, contextualize_report
+    traces = []
+    for path in files:
+        try:
+            src = open(path, encoding="utf-8").read()
+            tree = ast.parse(src)
+        except Exception:
+            continue
+        if len(src) > 40000:
+            continue
+        rng = random.Random("%s|%s" % (os.path.basename(path), extra))
+        order = list(CORPUS_FEATURES)
+        rng.shuffle(order)
+        clear_report()
+        contextualize_report(src)
+        ev, err = [], None
+        for feature in order:
+            lines = oracle(tree, feature)
+            try:
+                found = pedal_find(feature, R)
+                if found is not None:
+                    ev.append({"e": "find", "f": feature, "count": len(lines), "found": found})
+                for pol, thr in (("ensure", 1), ("prevent", 0)):
+                    fired, line = pedal_query(feature, pol, thr, R)
+                    ev.append({"e": "query", "f": feature, "pol": pol, "thr": thr, "count": len(lines), "fired": fired,
+                               "line": line, "lines": sorted(set(lines))})
+            except Exception as e:
+                ev.append({"e": "find", "f": feature, "count": 0, "found": -1})
+                err = "%s: %s" % (type(e).__name__, e)
+                break
+        traces.append({"file": path, "feature": "session", "events": ev, "error": err, "order": order})
+    return traces
